@@ -6,6 +6,7 @@ import (
 	"sort"
 	"strconv"
 	"strings"
+	"sync"
 	"time"
 
 	"github.com/practable/relay/internal/crossbar"
@@ -105,6 +106,43 @@ func init() {
 						h.VBroadcastFrom(c, []byte(d), mt)
 						h.VBarrier()
 					}
+					return "ok " + state()
+				case len(fs) == 2 && fs[0] == "burst":
+					// several writers' frames arrive while the hub is momentarily busy (all queued at the same instant)
+					type bitem struct {
+						c *crossbar.VClient
+						d string
+					}
+					items := []bitem{}
+					for _, item := range strings.Split(fs[1], ",") {
+						p := strings.SplitN(item, ":", 2)
+						if len(p) != 2 {
+							return "bad-op"
+						}
+						c := get(p[0])
+						d, ok := unhex(p[1])
+						if !ok {
+							return "bad-op"
+						}
+						if c != nil && isMember(c) && c.VCanWrite() { // (membership is read before the hub is stalled)
+							items = append(items, bitem{c, d})
+						}
+					}
+					h.VStall(40 * time.Millisecond)
+					var wg sync.WaitGroup
+					for _, it := range items {
+						c, d := it.c, it.d
+						{
+							wg.Add(1)
+							go func(c *crossbar.VClient, d string) {
+								defer wg.Done()
+								h.VBroadcastFrom(c, []byte(d), 2)
+							}(c, d)
+							time.Sleep(2 * time.Millisecond) // arrival order = listed order
+						}
+					}
+					wg.Wait()
+					h.VBarrier()
 					return "ok " + state()
 				case len(fs) == 3 && fs[0] == "drain":
 					c := get(fs[1])
